@@ -63,10 +63,17 @@ def body_of(code: str, fname: str) -> str:
 # ================================================================== C05
 def c05_case(ctx: Ctx, case: dict):
     text = case["text"]
-    b = oracle.build_py(ctx, text, "C05", scheme=[Scheme.explicit_euler])
+    b = oracle.build_py(ctx, text, "C05", scheme=[Scheme.explicit_euler, Scheme.forward_explicit_euler])
     if b is None:
         return
     rm = b.rm
+    # two accepted names requested together: both must be emitted, with the same body
+    if "explicit_euler" not in b.funcs or "forward_explicit_euler" not in b.funcs:
+        ctx.violate("C05/numpy/alias-missing-in-module",
+                    f"get_code(scheme=[explicit_euler, forward_explicit_euler]) emitted {sorted(k for k in b.funcs if 'euler' in k)}", case={"text": text})
+        return
+    if body_of(b.code, "explicit_euler") != body_of(b.code, "forward_explicit_euler"):
+        ctx.violate("C05/numpy/alias-bodies-differ", "explicit_euler and forward_explicit_euler differ within one module", case={"text": text})
     ctx.case(text, len(rm.states) >= 2 or len(rm.inters) >= 1, sample={"text": text})
     lay = b.layout
     f = b.funcs.get("explicit_euler")
@@ -144,7 +151,9 @@ def c05_case(ctx: Ctx, case: dict):
 def c06_case(ctx: Ctx, case: dict):
     text = case["text"]
     delta = case.get("delta", 1e-8)
-    b = oracle.build_py(ctx, text, "C06", scheme=[Scheme.generalized_rush_larsen], delta=delta)
+    alias = case.get("alias") or ctx.rng.choice(["generalized_rush_larsen", "generalized_rush_larsen", "forward_generalized_rush_larsen"])
+    case = {**case, "alias": alias}
+    b = oracle.build_py(ctx, text, "C06", scheme=[Scheme(alias)], delta=delta)
     if b is None:
         return
     rm = b.rm
@@ -155,9 +164,9 @@ def c06_case(ctx: Ctx, case: dict):
         return
     nontriv = any(not (e[0] == "num" and e[1] == 0) for e in lin.values())
     ctx.case(text + repr(delta), nontriv, sample={"text": text, "delta": delta, "g": {d: str(e)[:80] for d, e in lin.items()}})
-    f = b.funcs.get("generalized_rush_larsen")
+    f = b.funcs.get(alias)
     if f is None:
-        ctx.violate("C06/numpy/no-grl", "no generalized_rush_larsen function generated", case=case)
+        ctx.violate("C06/numpy/no-grl", f"no {alias} function generated", case=case)
         return
     if not any("UNTRANSLATABLE" in o for o in f.other):
         v = oracle.validate(ctx, text, "scheme", lay, f.stmts)
@@ -188,7 +197,7 @@ def c06_case(ctx: Ctx, case: dict):
             continue
         s, p, mv = oracle.arrays_for(pt, lay)
         try:
-            out = oracle.call_py(b.mod.generalized_rush_larsen, "stdp", states=s, t=pt["t"], dt=pt["dt"], parameters=p, missing=mv)
+            out = oracle.call_py(getattr(b.mod, alias), "stdp", states=s, t=pt["t"], dt=pt["dt"], parameters=p, missing=mv)
         except Exception as ex:
             ctx.violate(f"C06/numpy/raises/{type(ex).__name__}", f"generalized_rush_larsen raised {type(ex).__name__}: {str(ex)[:100]}", case={**case, "points": [pt]})
             return
@@ -216,7 +225,7 @@ def c06_case(ctx: Ctx, case: dict):
         ctx.count("values_ok", ok)
         ctx.count("values_skipped", skip)
         if bad:
-            conf = oracle.confirm_values(ctx, b, "generalized_rush_larsen", "stdp", bad, slots, spread, states=s, t=pt["t"], dt=pt["dt"], parameters=p, missing=mv)
+            conf = oracle.confirm_values(ctx, b, alias, "stdp", bad, slots, spread, states=s, t=pt["t"], dt=pt["dt"], parameters=p, missing=mv)
             for (name, got, ref, c) in conf:
                 sn = name[len("__step_"):]
                 d = rm.deriv_of(sn)
@@ -234,7 +243,7 @@ def c06_case(ctx: Ctx, case: dict):
 def c06_family(ctx: Ctx):
     """rate expressions whose g is exactly controllable"""
     rng = ctx.rng
-    k = rng.choice(["affine", "log", "inv", "quad", "expo", "zero", "cond"])
+    k = rng.choice(["affine", "log", "inv", "quad", "expo", "zero", "cond", "condzero", "condconst", "nested"])
     c = round(rng.uniform(0.2, 3), 3)
     if k == "affine":
         a = rng.choice([1e-9, 5e-9, 2e-8, 1e-8 * 1.5, -3e-9, -0.7, 2.5, 1e-3])
@@ -249,13 +258,19 @@ def c06_family(ctx: Ctx):
         text = f"states(x=0.5)\nparameters(p={c})\ndx_dt = exp(-p*x) - x\n"
     elif k == "zero":
         text = f"states(x=0.5, y=1)\nparameters(p={c})\ndx_dt = p*y\ndy_dt = x + 0*y\n"
+    elif k == "condzero":
+        text = f"states(x=0.5)\nparameters(p={c}, lim=1)\ndx_dt = Conditional(Gt(x, lim), -p*(x - lim), 0)\n"
+    elif k == "condconst":
+        text = f"states(x=0.5, y=1)\nparameters(p={c})\ndx_dt = Conditional(Lt(x, 1), p*y, -p*x*x)\ndy_dt = Conditional(Ge(y, x), 1.5, exp(-y)) + x\n"
+    elif k == "nested":
+        text = f"states(x=0.5)\nparameters(p={c})\ndx_dt = Conditional(Gt(x, 2), -p*x, Conditional(Lt(x, 0.5), 0, p - x))\n"
     else:
         text = f"states(x=0.5)\nparameters(p={c})\ndx_dt = Conditional(Gt(x, 1), -p*x, p*sin(x))\n"
     delta = rng.choice([1e-8, 1e-8, 0.0, 1e-3, 0.5])
     pts = []
     for _ in range(4):
         mag = rng.choice([1.0, 1e-3, 1e3, 1e9, 1e17, 3.0])
-        pt = {"x": float(rng.uniform(0.5, 2) * mag), "y": float(rng.uniform(-2, 2)), "p": float(c * rng.choice([1, 1e10, 1e-3])),
+        pt = {"x": float(rng.uniform(0.2, 2) * mag), "y": float(rng.uniform(-2, 2)), "p": float(c * rng.choice([1, 1e10, 1e-3])), "lim": 1.0,
               "a": float(rng.choice([1e-9, 5e-9, 2e-8, -3e-9, -0.7, 2.5])), "b": float(c), "t": 0.0,
               "dt": float(rng.choice([1.0, 0.1, 1e-3, 0.0]))}
         pts.append(pt)
